@@ -136,29 +136,34 @@ impl<S: WebSocket, T: TimestampProvider> Task<S, T> {
         mut dropped_flows_rx: mpsc::UnboundedReceiver<u32>,
         mut tx_msg_rx: mpsc::UnboundedReceiver<Message>,
     ) -> Result<()> {
-        let (should_drain_frame_rx, res) = futures_util::select_biased! {
+        let (should_drain_frame_rx, peer_closed, res) = futures_util::select_biased! {
             r = self.process_ws_next().fuse() => {
                 debug!("`process_ws_next` finished: {r:?}");
-                (false, r)
+                (false, true, r)
             }
             r = self.process_message_to_send_task(&mut tx_msg_rx).fuse() => {
                 debug!("`process_message_to_send_task` task finished: {r:?}");
-                (false, r)
+                (false, false, r)
             }
             r = self.schedule_ping_task().fuse() => {
                 debug!("`schedule_ping_task` task errored: {r:?}");
-                (false, r)
+                (false, false, r)
             }
             () = self.process_dropped_flows_task(&mut dropped_flows_rx).fuse() => {
                 debug!("`process_dropped_flows_task` task finished");
-                (true, Ok(()))
+                (true, false, Ok(()))
             }
         };
         // After an error (transport failure, invalid frame, keepalive timeout) the peer
         // cannot be expected to finish the closing handshake, so do not wait for it.
+        // If the peer has already sent its `Close` (or ended the stream), nothing more can
+        // arrive: answer it, but do not wait for the peer to tear down the transport. No
+        // keepalive is running at this point, so a peer that goes silent after its `Close`
+        // would otherwise keep this task (and whoever waits for it) around forever.
         self.wind_down(
             should_drain_frame_rx,
             res.is_ok(),
+            res.is_ok() && !peer_closed,
             tx_msg_rx,
             dropped_flows_rx,
         )
@@ -308,6 +313,7 @@ impl<S: WebSocket, T: TimestampProvider> Task<S, T> {
     async fn wind_down(
         &self,
         should_drain_msg_rx: bool,
+        should_close_sink: bool,
         should_drain_source: bool,
         mut tx_msg_rx: mpsc::UnboundedReceiver<Message>,
         mut dropped_flows_rx: mpsc::UnboundedReceiver<u32>,
@@ -351,7 +357,7 @@ impl<S: WebSocket, T: TimestampProvider> Task<S, T> {
             }
         }
         // This will flush the remaining frames already queued for sending as well
-        if should_drain_source {
+        if should_close_sink {
             poll_fn(|cx| self.ws.lock().poll_close_unpin(cx)).await.ok();
         } else {
             // The connection failed. The transport may never be able to flush again
